@@ -122,3 +122,43 @@ def c04_product():
         for doc in DOCS:
             src, mv = render_c04(kind, doc, 0, 0, 0, 0, False, 0)
             yield {"src": src, "mode": "exec", "optimize": 0, "min_version": mv, "_label": "c04_product"}
+
+
+# ---------------------------------------------------------------- C11
+KNOWN_BITS_ALL = [1 << i for i in range(0, 26)]
+
+
+@st.composite
+def flag_word_batches(draw, known_bits):
+    """a batch of flag words: subsets of the known bits, single unknown bits 0-63,
+    unknown + random known subset"""
+    n = draw(st.integers(1, 24))
+    words = []
+    for _ in range(n):
+        k = draw(st.integers(0, 9))
+        sub = 0
+        for b in draw(st.lists(st.sampled_from(known_bits), max_size=len(known_bits), unique=True)):
+            sub |= b
+        if k <= 5:
+            words.append(sub)
+        elif k <= 7:
+            words.append(1 << draw(st.integers(0, 63)))
+        else:
+            words.append(sub | (1 << draw(st.integers(0, 63))))
+    return words
+
+
+@st.composite
+def header_alterations(draw):
+    alt = {"target": draw(st.integers(0, 15))}
+    k = draw(st.integers(0, 5))
+    if k <= 2:
+        bits = draw(st.lists(st.integers(0, 31), min_size=1, max_size=3, unique=True))
+        val = 0
+        for b in bits:
+            val |= 1 << b
+        alt["flags_xor" if draw(st.booleans()) else "flags_or"] = val
+    if k >= 2:
+        fld = draw(st.sampled_from(["argcount_d", "posonly_d", "kwonly_d", "nlocals_d"]))
+        alt[fld] = draw(st.sampled_from([-2, -1, 1, 2, 3]))
+    return alt
